@@ -233,6 +233,29 @@ def misuse(ctx):
         rep.check(not bad, 'R-MISUSE', 'finite_difference.LogRule._vstack', fd.relpath, {'paths': len(exr.paths), 'outcomes': bad[:3]},
                   'ValueError (fun did not return data of correct size)', '%s with f returning %d values' % (cls, bad_size),
                   key='wrong size')
+    # ... the same for the routines that do not go through the finite difference rule: n = 0 and Limit
+    for what, bad_size in (('Derivative n=0', 1), ('Derivative n=0', 2), ('Derivative n=0 complex', 1), ('Limit.limit', 1), ('Limit.limit', 2)):
+        def body(s, what=what, bad_size=bad_size):
+            I = s.interp
+
+            def f(x, *a, **k):
+                if bad_size == 1:
+                    return DV({('f', 0)}, 'f')                       # e.g. np.sum(x**2): one number for a vector
+                return Arr((bad_size,), [DV({('f', c)}, 'f') for c in range(bad_size)])
+            if what.startswith('Derivative'):
+                d = I.get_global('core', 'Derivative')(f, n=0, method='complex' if what.endswith('complex') else 'central')
+                return d(s.x_array((3,)))
+            L = I.get_global('limits', 'Limit')(f, num_steps=5)
+            return I.getattr(L, 'limit')(s.x_array((3,)))
+        try:
+            exr = explore(repo, body, pinned={'(np.abs(step) > 0).all()': True})
+        except AnalysisError as exc:
+            rep.undecided('R-MISUSE', 'limits._Limit._vstack', exc, '%s with f returning %d value(s) for 3 inputs' % (what, bad_size))
+            continue
+        bad = [(exc.exc_name if exc else 'returned') for d, r, exc in exr.paths if exc is None or exc.exc_name != 'ValueError']
+        rep.check(not bad, 'R-MISUSE', 'limits._Limit._vstack', lim.relpath, {'paths': len(exr.paths), 'outcomes': bad[:3]},
+                  'ValueError (fun did not return data of correct size)', '%s with f returning %d value(s) for 3 inputs' % (what, bad_size),
+                  key='wrong size (n = 0 / limit)')
     # directionaldiff sizes
     models = Models()
     I = Interp(repo, models)
@@ -270,7 +293,7 @@ def misuse(ctx):
             I.on_call = None
     # Residue order <= pole_order
     Res = I.get_global('limits', 'Residue')
-    for order, pole in ((1, 1), (2, 2), (1, 3), (2, 3)):
+    for order, pole in ((1, 1), (2, 2), (1, 3), (2, 3), (0, 1), (0, 2), (0, 3), (3, 3)):
         expect_value_error(rep, 'R-MISUSE', 'limits.Residue.__init__', lim.relpath, 'order=%d pole_order=%d' % (order, pole),
                            lambda order=order, pole=pole: Res(lambda z: z, order=order, pole_order=pole), 'residue order')
     # unknown path
